@@ -318,12 +318,14 @@ Asg0(q) == [n \in 1..NN(q) |-> 0]
 
 \* ------------------------------------------------------------------ denotation: all complete evaluations
 RejVec == <<<<"r">>>>
+\* every complete evaluation as a record [v |-> values of all nodes, a |-> draws, d |-> drawn leaves];
+\* a branch on which a leaf has an empty support contributes [v |-> RejVec, ..]
 RECURSIVE Complete(_, _, _)
 Complete(q, asg, drawn) ==
   LET v == Eval(q, asg, drawn)  r == Ready(q, v, drawn) IN
-  IF r = {} THEN {v}
+  IF r = {} THEN {[v |-> v, a |-> asg, d |-> drawn]}
   ELSE LET p == SetMin(r)  s == Supp(q, p, v) IN
-       IF s = {} THEN {RejVec}
+       IF s = {} THEN {[v |-> RejVec, a |-> asg, d |-> drawn]}
        ELSE UNION {Complete(q, [asg EXCEPT ![p] = x], drawn \cup {p}) : x \in s}
 \* The denotation of case q, computed once (in Init) and carried in the state:
 \*   all : every complete evaluation         ok / why : the well-formedness verdict
@@ -332,7 +334,8 @@ Complete(q, asg, drawn) ==
 QSetMin(S) == CHOOSE x \in S : \A y \in S : QLe(x, y)
 QSetMax(S) == CHOOSE x \in S : \A y \in S : QLe(y, x)
 Den(q) ==
-  LET all == Complete(q, Asg0(q), {})
+  LET recs == Complete(q, Asg0(q), {})
+      all == {r.v : r \in recs}
       ok == /\ AnnotOK(q)
             /\ \A v \in all : v # RejVec /\ \A n \in 1..Len(v) : ~IsErr(v[n]) /\ ~IsU(v[n])
       why == IF ok THEN "ok"
@@ -345,7 +348,7 @@ Den(q) ==
                [n \in 1..NN(q) |-> IF \A v \in all : IsN(v[n])
                                    THEN LET S == {Q(v[n]) : v \in all} IN <<QSetMin(S), QSetMax(S)>>
                                    ELSE <<>>]
-  IN [all |-> all, ok |-> ok, why |-> why, sup |-> sup]
+  IN [recs |-> recs, all |-> all, ok |-> ok, why |-> why, sup |-> sup]
 
 \* ------------------------------------------------------------------ construction rewrites
 \* The algebraic simplifications a library may perform when an expression is BUILT, each
@@ -432,9 +435,19 @@ Init == \/ /\ q \in 1..NC /\ pc = "begin" /\ asg = <<>> /\ drawn = {} /\ val = <
         \/ /\ q \in 1..Len(Rules) /\ pc = "rule" /\ drawn = {} /\ val = <<>> /\ den = <<>>
            /\ \E x \in SmallQ : asg = x
 
-Begin == /\ pc = "begin" /\ pc' = "draw"
-         /\ asg' = Asg0(q) /\ val' = Eval(q, Asg0(q), {}) /\ den' = Den(q)
+\* IOEnv.MACHINE = "1": the leaves are drawn one action at a time (Draw / Reject / Finish) and the
+\* result is compared with the denotation (DoneInDenotation) -- twice the work, used by the thorough
+\* tier; otherwise Pick takes one complete evaluation of the denotation per behaviour.
+UseMachine == IOEnv.MACHINE = "1"
+Begin == /\ pc = "begin" /\ pc' = (IF UseMachine THEN "draw" ELSE "pick")
+         /\ asg' = Asg0(q) /\ den' = Den(q)
+         /\ val' = (IF UseMachine THEN Eval(q, Asg0(q), {}) ELSE <<>>)
          /\ UNCHANGED <<q, drawn>>
+Pick == /\ pc = "pick"
+        /\ \E r \in den.recs :
+             /\ pc' = (IF r.v = RejVec THEN "rejected" ELSE "done")
+             /\ val' = r.v /\ asg' = r.a /\ drawn' = r.d
+        /\ UNCHANGED <<q, den>>
 Draw == /\ pc = "draw" /\ Ready(q, val, drawn) # {}
         /\ LET p == SetMin(Ready(q, val, drawn)) IN
              /\ Supp(q, p, val) # {}
@@ -448,18 +461,21 @@ Reject == /\ pc = "draw" /\ Ready(q, val, drawn) # {}
           /\ pc' = "rejected" /\ UNCHANGED <<q, asg, drawn, val, den>>
 Finish == /\ pc = "draw" /\ Ready(q, val, drawn) = {}
           /\ pc' = "done" /\ UNCHANGED <<q, asg, drawn, val, den>>
-Next == Begin \/ Draw \/ Reject \/ Finish
+Next == Begin \/ Pick \/ Draw \/ Reject \/ Finish
 Spec == Init /\ [][Next]_vars
 
 \* ------------------------------------------------------------------ invariants
-TypeOK == /\ pc \in {"begin", "draw", "rejected", "done", "rule"}
-          /\ (pc \notin {"rule", "begin"} => q \in 1..NC /\ drawn \subseteq Prims(q) /\ Len(val) = NN(q))
+TypeOK == /\ pc \in {"begin", "pick", "draw", "rejected", "done", "rule"}
+          /\ (pc \in {"draw", "done"} => q \in 1..NC /\ drawn \subseteq Prims(q) /\ Len(val) = NN(q))
 
 RewriteSound == pc = "rule" => (RuleCond(Rules[q], asg) => RuleLhs(Rules[q], asg) = Num(asg))
 
 Good == pc = "done" /\ den.ok
 \* the machine and the denotation agree
 DoneInDenotation == (pc = "done" => val \in den.all) /\ (pc = "rejected" => RejVec \in den.all)
+\* a printed evaluation is reproduced by evaluating its recorded draws again (checked on object
+\* cases and in machine mode only: it costs a full evaluation)
+Reproducible == (Good /\ (UseMachine \/ Cases[q].np > 0)) => Eval(q, asg, drawn) = val
 \* object cases: the evaluation is a fixpoint (one more pass changes nothing)
 FixpointStable == (Good /\ Cases[q].np > 0) => EvalPass(q, NN(q), asg, drawn, val, FALSE) = val
 \* a lazily evaluated reference equals the value of the winning definition of the property
@@ -507,7 +523,7 @@ InSupport == Good => \A n \in 1..NN(q) : den.sup[n] # <<>> =>
 \* one line per case (at its initial state): verdict of the well-formedness predicate,
 \* exact supports, triggers of the as-implemented deviations, final definitions
 EmitCase ==
-  (pc = "draw" /\ drawn = {}) =>
+(pc \in {"draw", "pick"} /\ drawn = {}) =>
      PrintT(ToJson([t |-> "case", q |-> q, ok |-> den.ok, why |-> den.why,
                     n |-> Cardinality(den.all),
                     sup |-> den.sup,
